@@ -88,6 +88,12 @@ class _Alias:
         if d:
             self._ctx.bad(d, key, msg, loc, path)
 
+    def undecided(self, rid, what):
+        self._ctx.undecided(rid, what)
+
+    def note(self, s_):
+        self._ctx.note(s_)
+
     def check(self, cond, rid, key, ok_detail, bad_msg, loc=None, path=None):
         d = self._map(rid, key)
         if d:
